@@ -175,8 +175,13 @@ func (r *run) observe(d *delivery) {
 			return
 		}
 		if string(d.preJSON) != string(d.postJSON) {
-			r.viol("C14", "another-hand-in-the-process-changed-this-hand", "starting another hand changed this hand: "+firstDiff(d.postJSON, d.preJSON), i)
-			r.viol("C07", "another-hand-in-the-process-changed-this-hand", "starting another hand changed this hand: "+firstDiff(d.postJSON, d.preJSON), i)
+			diff := firstDiff(d.postJSON, d.preJSON)
+			r.viol("C07", "another-hand-in-the-process-changed-this-hand", "playing another hand changed this hand: "+diff, i)
+			for prop, f := range isolationViews {
+				if f(d.pre) != f(d.post) {
+					r.viol(prop, "another-hand-in-the-process-changed-this-hand", "playing another hand in the same process changed what this property speaks about: "+f(d.pre)+" -> "+f(d.post), i)
+				}
+			}
 		}
 		cl0 := opClass{legit: false, kind: "neighbour", seat: -1}
 		r.checkC07(d, i)
@@ -354,4 +359,64 @@ func (r *run) trackAfter(d *delivery, cl opClass, accepted bool) int64 {
 		}
 	}
 	return hi
+}
+
+// isolationViews: the part of the state each property speaks about (used to
+// attribute a change caused by another hand in the same process).
+var isolationViews = map[string]func(*pokerface.GameState) string{
+	"C01": func(g *pokerface.GameState) string {
+		s := fmt.Sprintf("rp=%d|", g.Status.CurrentRoundPot)
+		for _, p := range g.Players {
+			s += fmt.Sprintf("%d %d %d %d|", p.Bankroll, p.StackSize, p.Wager, p.Pot)
+		}
+		for _, p := range g.Status.Pots {
+			s += fmt.Sprintf("pot %d|", p.Total)
+		}
+		return s
+	},
+	"C16": func(g *pokerface.GameState) string {
+		s := ""
+		for _, p := range g.Status.Pots {
+			s += fmt.Sprintf("pot %d %d %d %v|", p.Level, p.Wager, p.Total, p.Contributors)
+		}
+		return s
+	},
+	"C14": func(g *pokerface.GameState) string {
+		s := fmt.Sprintf("%v %d %v %v|", g.Meta.Deck, g.Status.CurrentDeckPosition, g.Status.Board, g.Status.Burned)
+		for _, p := range g.Players {
+			s += fmt.Sprintf("%v|", p.HoleCards)
+		}
+		return s
+	},
+	"C10": func(g *pokerface.GameState) string {
+		s := ""
+		for _, p := range g.Players {
+			if p.Combination != nil {
+				s += fmt.Sprintf("%s %v %d|", p.Combination.Type, p.Combination.Cards, p.Combination.Power)
+			}
+		}
+		return s
+	},
+	"C02": func(g *pokerface.GameState) string {
+		if g.Result == nil {
+			return ""
+		}
+		s := ""
+		for _, p := range g.Result.Players {
+			s += fmt.Sprintf("%d %d %d|", p.Idx, p.Final, p.Changed)
+		}
+		return s
+	},
+	"C04": offersView, "C06": offersView, "C11": offersView, "C05": offersView,
+	"C12": func(g *pokerface.GameState) string {
+		return fmt.Sprintf("W=%d R=%d M=%d", g.Status.CurrentWager, g.Status.PreviousRaiseSize, g.Status.MiniBet)
+	},
+}
+
+func offersView(g *pokerface.GameState) string {
+	s := fmt.Sprintf("%s/%s cur=%d|", g.Status.CurrentEvent, g.Status.Round, g.Status.CurrentPlayer)
+	for _, p := range g.Players {
+		s += fmt.Sprintf("%v %v %v|", p.AllowedActions, p.Acted, p.Fold)
+	}
+	return s
 }
